@@ -136,6 +136,19 @@ fn plan(prop: &str, tier: &str) -> Plan {
         }
         fams.push(json!({"family": "trees at the end of long games, games unwound afterwards", "members": n, "game_lengths_from_start": lens, "game_lengths_from_ep_root": ep_lens, "ep_root": LONG_GAME_EP_ROOT, "tail_depth": tail, "merged_with_other_states": false}));
     }
+    // C03 / C05: long games replayed with nothing but `apply` touching the board, compared with the
+    // model after every ply; openings with double steps so that an en-passant target exists early
+    // and 256 / 512 plies pass after it
+    if matches!(prop, "C03" | "C05") {
+        let start = Pos::startpos();
+        let mut n = 0;
+        for (nm, opening, len) in [("e4-e5", vec!["e2e4", "e7e5"], 600usize), ("nf3-d5-d4-c4", vec!["g1f3", "d7d5", "f3g1", "d5d4", "c2c4"], 600), ("plain", vec![], 300)] {
+            let pre = preroll_game_opening(&opening, len);
+            items.push(Item { seed_name: format!("long-replay-{}-{}", nm, len), seed_fen: start.to_fen(), root: start.clone(), prefix: pre, remaining: 1 });
+            n += 1;
+        }
+        fams.push(json!({"family": "long games replayed by apply alone, compared with the model after every ply", "members": n, "lengths": [600, 600, 300]}));
+    }
     // C05: the key must not depend on the clocks either — roots pre-loaded with half-move clocks
     // around 100 and ply counts around 255 (the key is compared with a direct set-up at clock 0)
     if prop == "C05" {
@@ -305,6 +318,8 @@ pub fn run(a: &Args) -> i32 {
     if prop == "C05" {
         c05_constants(&sink, &mut rep);
         c05_setup_orders(&sink, &mut rep);
+        crate::props::c17::c05_keys_under_registration(&sink, &mut rep, if a.tier == "thorough" { 11 } else { 9 });
+        rep.mandatory.push("keys_compared_on_boards_with_registered_positions".into());
         rep.mandatory.push("constant_pairs_compared".into());
         rep.mandatory.push("set_up_orders_compared".into());
         if a.tier == "thorough" {
